@@ -32,7 +32,7 @@ func init() {
 }
 
 func c06Run(ctx *core.Ctx) {
-	ns := []int64{1, 2, 3, 4, 5, 6, 7, 8, 9, 10, 11, 12, 50, 4096}
+	ns := []int64{1, 2, 3, 4, 5, 6, 7, 8, 9, 10, 11, 12, 13, 14, 15, 16, 17, 18, 19, 20, 21, 22, 23, 24, 50, 64, 4096}
 	spread := 2
 	if ctx.Thorough() {
 		ns = nil
